@@ -64,6 +64,9 @@ func (v DenseFloat32Vector) AT(i int) Float32 {
   return Float32{&v[i]}
 }
 func (v DenseFloat32Vector) APPEND(w DenseFloat32Vector) DenseFloat32Vector {
+  // v might be a slice of a longer vector, do not
+  // overwrite the elements behind it
+  v = v[:len(v):len(v)]
   return append(v, w...)
 }
 func (v DenseFloat32Vector) ToDenseFloat32Matrix(n, m int) *DenseFloat32Matrix {
@@ -114,12 +117,18 @@ func (v DenseFloat32Vector) Swap(i, j int) {
   v[i], v[j] = v[j], v[i]
 }
 func (v DenseFloat32Vector) AppendScalar(scalars ...Scalar) Vector {
+  // v might be a slice of a longer vector, do not
+  // overwrite the elements behind it
+  v = v[:len(v):len(v)]
   for _, scalar := range scalars {
     v = append(v, scalar.GetFloat32())
   }
   return v
 }
 func (v DenseFloat32Vector) AppendVector(w Vector) Vector {
+  // v might be a slice of a longer vector, do not
+  // overwrite the elements behind it
+  v = v[:len(v):len(v)]
   for i := 0; i < w.Dim(); i++ {
     v = append(v, w.ConstAt(i).GetFloat32())
   }
